@@ -1,47 +1,17 @@
-"""Per-property configuration for bin/check."""
+"""Per-property configuration for bin/check: one JSON file per property under /verif/props/."""
+import json, os, glob
+
+VERIF = os.path.dirname(os.path.dirname(os.path.abspath(__file__)))
 
 COMMON_TRUSTED = [
     "Coq 8.16.1 kernel (coqc; vm_compute used for case evaluation and finite sweeps; no native_compute)",
-    "translators under harness/gen (gofrag: go/ast -> Gallina for the slice named in gen/targets.json)",
+    "translators under harness/gen (gofrag: go/ast -> Gallina for the slices named in gen/targets/*.json)",
     "Go correspondence harness and its generators (harness/cmd/*), Go toolchain, reflect",
     "no extraction: cases are evaluated inside Coq by vm_compute",
 ]
 
 NOT_APPLICABLE = {}
 
-PROPS = {
-    "C18": {
-        "harness": "c18",
-        "technique": "Coq proof over gofrag-translated window conditions + differential correspondence",
-        "level_text": "Theorems (all instants, all optional-bound windows, all shard lists) that each of the three membership tests is exactly start <= t < limit, that routing coincides with admission, and that accepted shard lists are exactly the contiguous ones and route every instant of their span to one shard; the three conditions are re-translated from the Go source on every run, the loop/constructor glue is tied by differential correspondence at boundary instants.",
-        "level_note": "Trusted: Coq kernel, gofrag translator, time.Time comparison semantics, protobuf timestamp conversion; glue code (IndexByDate loop, NewTemporalLogClient order of checks) is hand-modelled and validated by correspondence only.",
-        "gen_units": ["Windows.v"],
-        "coq_deps": ["Temporal/WindowProofs"],
-        "case_lib": "Temporal/WindowCase",
-        "rule": "cases = (instant, window) points against ctfe.ValidateChain + single-shard TemporalLogClient, "
-                "log-list intervals against TemporallyCompatible, shard lists (well-formed and perturbed) probed at every "
-                "bound +-1ns; distinct = distinct Coq case term; all are non-trivial (each drives real code)",
-        "trusted_base": ["time.Time comparison = comparison of (unix seconds, nanos) as one integer",
-                         "protobuf Timestamp.CheckValid/AsTime (shard bounds are valid timestamps)",
-                         "x509 chain verification (harness chains are valid by construction; sanity-checked)"],
-        "assumptions": ["glue around the generated conditions (loop of IndexByDate, construction order of NewTemporalLogClient) is hand-modelled and tied by correspondence only"],
-        "partial": [],
-    },
-    "C07": {
-        "harness": "c07",
-        "technique": "Coq proof over gofrag-translated int64 range arithmetic + handler model, differential correspondence over HTTP",
-        "level_text": "range_contract is proved for ALL int64 start/end/max (with Go's wrap-around written into the generated definitions), "
-                      "so the overflow and alignment boundaries are covered by proof, not sampling; the handler's sanity checks and byte pass-through "
-                      "are a hand model tied to the real handler over HTTP with a scripted backend (honest, short, surplus, mis-indexed, garbled root, small tree, RPC errors).",
-        "level_note": "Trusted: Coq kernel, gofrag, strconv.ParseInt (modelled as value-or-error), encoding/json and base64 of the response, the scripted backend. "
-                      "Entry decoding (LogEntryFromLeaf) is covered under C04/C12, not here.",
-        "gen_units": ["GetEntries.v", "HttpStatus.v"],
-        "coq_deps": ["CTFE/GetEntriesProofs"],
-        "case_lib": "CTFE/GetEntriesCase",
-        "rule": "cases = (start,end) from an overflow/alignment boundary grid x max in {1,2,7,1000,2^31,2^62,2^63-1,small random} x align x 12 backend behaviours; "
-                "distinct = distinct Coq case term; non-trivial = all (each is one HTTP request through the real handler)",
-        "trusted_base": ["strconv.ParseInt semantics", "encoding/json + base64 of ct.GetEntriesResponse", "scripted TrillianLogClient"],
-        "assumptions": ["backend RPC errors never map to HTTP 200 (proved for gRPC codes 1..16 under C08)"],
-        "partial": ["decode_recovers_submission and get-entry-and-proof byte equality are stated under C04/C08 models"],
-    },
-}
+PROPS = {}
+for f in sorted(glob.glob(os.path.join(VERIF, "props", "C*.json"))):
+    PROPS[os.path.basename(f)[:-5]] = json.load(open(f))
